@@ -26,6 +26,13 @@ operands, version_compare on objects and mixed arguments, functools.cmp_to_key(v
 on objects that were given their value by assignment after they had been hashed and compared, and through containers
 (set, dict, list membership, min, max, sorted of the pair); R in five arrangements and every ordered triple of 20 strings
 go through sorted / list.sort / reverse / cmp_to_key / key=Version / bisect.insort / heapq / min / max / set / dict.
+
+Beyond the small scope (own work units, signatures ladder/... and size/...): count ladders - for every n in 1..40 and
+63..1001 (thorough: ..5000) a version with n alternating digit / non-digit runs (in the upstream part and in the revision,
+five separator kinds, digit or non-digit run first), with n hyphens, with n colons, compared with its neighbours (one run
+changed at the end / before the end / in the middle / at the start, leading zeros, one more run after n identical ones,
+-0 and 0: spellings); a size ladder - one digit run of 997 .. 65 537 digits, one other run of 997 .. 4 097 (thorough: 16 385)
+characters.  Cases are regenerated from (family, n, variant names, seed).
 """
 import copy
 import itertools
@@ -47,7 +54,8 @@ RULE = ("states = valid version strings in the space (U_n + S, enumerated by wal
         "S2 units come first in the unit list (a failure that depends on earlier comparisons is then found early by "
         "the runner's sequential replay) and violations are ranked by the length of the pair; routes: one state per string "
         "of R, transitions = ordered pairs of R, traces / evaluations = route families executed per ordered pair (15) and "
-        "per sorted list (11)")
+        "per sorted list (11); ladders (beyond the small scope): one state per variant string of a (family, count) or (kind, size), "
+        "transitions / traces / evaluations = ordered pairs of variants executed, outcome classes prefixed ladder/ and size/")
 BUDGET = {"quick": 240, "thorough": 3000}
 
 SIGMA = "019aB.+~-:"
@@ -119,6 +127,24 @@ def bounds(tier):
                                   "sorted(reverse=True), sorted(key=cmp_to_key(version_compare)), sorted(key=Version), bisect.insort, "
                                   "heapq, min, max, len(set()), len(dict.fromkeys()): the stable sort by dpkg's key"
                                   % (ARRANGEMENTS, len(K_EXTRA) + 8)},
+            "ladders": {"counts": "every n in 1..40 and %r%s" % (LADDER_BIG, "" if tier == "quick" else " and %r" % LADDER_THOROUGH),
+                        "families": "%d: (position, separator, first run) = %r; n = number of alternating digit / non-digit runs "
+                                    "(digit runs cycle through %r, 'mixed' separators through %r); for the separators '-' and ':' n = "
+                                    "number of hyphens / colons in the upstream part (2n + 1 runs)" % (
+                                        len(LADDER_FAMILIES), LADDER_FAMILIES, LADDER_DIGITS, LADDER_MIXED),
+                        "quick_tier_cut": "counts of 255 and more only for the families %r (quick); all families (thorough)" % (LADDER_QUICK_WIDE,),
+                        "variants_per_count": "base; last run / run before it / middle run / first run changed; a leading zero in the last and "
+                                              "in the first number; one more run after the n identical ones (%r: one version a proper prefix of "
+                                              "the other); base-0 and 0:base" % (LADDER_EXTENSIONS,),
+                        "pairs": "size ladder: base against every variant, and neighbouring variants (quick: for digit runs only); count ladders, quick: every pair for n <= 4; base against every variant (+ neighbouring variants for n <= 10); thorough: "
+                                 "every pair for n <= 40, base against every variant and neighbouring variants above; both directions; "
+                                 "the variants of one count through the sorting routes where neighbouring variants are compared"},
+            "size_ladder": {"digit_run_lengths": SIZE_DIGIT_RUN,
+                            "other_run_lengths": SIZE_OTHER_RUN + ([] if tier == "quick" else SIZE_OTHER_RUN_THOROUGH),
+                            "note": "one run of exactly L characters (all ones / last or first digit larger / zero-padded / L-1 / L+1 / all "
+                                    "zeros; letters, '~', '.'), in upstream and revision position, an all-zero epoch of L digits for "
+                                    "L <= 4300; non-digit runs longer than 16 385 are left out (the library compares them in about "
+                                    "1 microsecond per character and operator)"},
             "S2_pairs": "all unordered pairs of S2 and all pairs S2 x K, both directions (pairs already in (U_n + S)^2 "
                         "are left to the units of that space)"}
 
@@ -137,6 +163,11 @@ def assumptions():
             "comparisons with None and with things that are not versions are outside the statement; sorting is stable, so "
             "equal versions keep their input order; min / max return the first of several equal extremes (Python semantics)",
             "S2 is compared with itself and with the core K only, not with all of U_n + S (the pair space is quadratic)",
+            "ladders: the variants of one (family, count) are compared with each other only; the digits and letters of the ladder "
+            "strings are rotated by the seed like the rest of the space; ladder and size cases are regenerated from their "
+            "description (family, count, variant names, seed) on replay",
+            "size ladder: a version with a run of any length is a valid version string (Policy and dpkg set no limit); the "
+            "model compares digit runs digit by digit",
             "dpkg compares digit runs of any length digit by digit (no machine integer); the model does the same and "
             "a sample of S2 is cross-checked against dpkg --compare-versions in every run"]
 
@@ -295,6 +326,10 @@ def _units(tier, seed):
     out += [{"k": "routes", "row": i} for i in range(len(route_strings(sp)))]
     out.append({"k": "route-sorts", "first": None})
     out += [{"k": "route-sorts", "first": i} for i in range(len(triple_strings(sp)))]
+    # beyond the small scope
+    out += [{"k": "ladder", "fam": f, "ns": ns} for f in range(len(LADDER_FAMILIES)) for ns in ladder_groups(tier, LADDER_FAMILIES[f])]
+    out += [{"k": "size", "kind": "digit", "n": n} for n in SIZE_DIGIT_RUN]
+    out += [{"k": "size", "kind": "other", "n": n} for n in SIZE_OTHER_RUN + ([] if tier == "quick" else SIZE_OTHER_RUN_THOROUGH)]
     return out
 
 
@@ -309,6 +344,10 @@ def unit_cost(u, tier):
         return 60000 - 300 * u["row"]
     if u["k"] == "route-sorts":
         return 20000
+    if u["k"] == "ladder":
+        return 150000 + 20 * max(u["ns"])
+    if u["k"] == "size":
+        return 150000 + u["n"]
     return 30000
 
 
@@ -364,7 +403,12 @@ def run_pair(a, b, A, B, c, comp, why):
         bad.append(("order/antisymmetry", "version_compare(a, b) == -version_compare(b, a) for (%r, %r)" % (a, b),
                     "%r and %r" % (vcs[0], vcs[1])))
     if eq_seen:
-        ha, hb = hash(A), hash(B)
+        try:
+            ha, hb = hash(A), hash(B)
+        except Exception as ex:   # the code under test may not raise on valid versions
+            bad.append(("hash/raises/" + type(ex).__name__, "Version(%r) and Version(%r) can be hashed" % (a, b),
+                        "%s: %s" % (type(ex).__name__, ex)))
+            ha = hb = 0
         if ha != hb:
             bad.append(("hash/equal-versions-unequal-hash", "Version(%r) == Version(%r), so their hashes are equal" % (a, b),
                         "hash %d != %d" % (ha, hb)))
@@ -406,6 +450,8 @@ def run_unit(u, tier, seed):
         return unit_routes(part, sp, u["row"])
     if u["k"] == "route-sorts":
         return unit_route_sorts(part, sp, u["first"], tier, seed)
+    if u["k"] in ("ladder", "size"):
+        return unit_ladder(part, u, tier, seed)
     return unit_triples(part, sp, u["rows"])
 
 
@@ -856,7 +902,251 @@ def unit_route_sorts(part, sp, first, tier, seed):
     return part
 
 
+# ------------------------------------------------------------------------------------------------
+# beyond the small scope: count ladders over the structure of a version (number of digit / non-digit runs, of dotted
+# components, of hyphens and colons) and a size ladder over the length of one run
+
+LADDER_SMALL = list(range(1, 41))
+LADDER_BIG = [63, 64, 65, 100, 127, 128, 129, 255, 256, 257, 500, 999, 1000, 1001]
+LADDER_THOROUGH = [2500, 2501, 5000]
+# (position, separator kind, first run): n = number of runs, alternating digit / non-digit runs
+# for the separators '-' and ':' (upstream position only) n = number of hyphens / colons (2n + 1 runs, digit runs at both ends)
+LADDER_FAMILIES = ([("upstream", sep, "d") for sep in (".", "a", "~", "+", "mixed")] +
+                   [("upstream", "a", "s"), ("upstream", "mixed", "s")] +
+                   [("revision", sep, "d") for sep in (".", "a", "~", "+", "mixed")] +
+                   [("revision", "a", "s"), ("revision", "mixed", "s")] +
+                   [("upstream", "-", "d"), ("upstream", ":", "d")])
+LADDER_MIXED = [".", "a", "+", "~", "B.", "~~", ".+"]
+LADDER_DIGITS = ["1", "9", "10", "91"]
+LADDER_BUMP = {".": "+", "a": "B", "B": "a", "+": ".", "~": "a", "-": ".", ":": "."}
+LADDER_EXTENSIONS = ["~", "a", ".", "0", "1", "~1"]
+# size ladder: the length of ONE run.  int() of more than 4300 digits is refused by Python >= 3.11 unless the limit is
+# lifted; dpkg compares digit runs of any length.
+SIZE_DIGIT_RUN = [997, 998, 999, 1000, 4095, 4096, 4097, 4299, 4300, 4301, 16383, 16384, 16385, 65535, 65536, 65537]
+SIZE_OTHER_RUN = [997, 998, 999, 1000, 4095, 4096, 4097]
+SIZE_OTHER_RUN_THOROUGH = [16383, 16384, 16385]
+
+
+def ladder_counts(tier):
+    return LADDER_SMALL + LADDER_BIG + ([] if tier == "quick" else LADDER_THOROUGH)
+
+
+# quick tier: counts of 255 and more only for these families (a comparison of two versions of 1000 runs takes 1-2 ms)
+LADDER_QUICK_WIDE = [("upstream", ".", "d"), ("upstream", "mixed", "s"), ("revision", "a", "d"), ("revision", "mixed", "d"),
+                     ("upstream", "-", "d"), ("upstream", ":", "d")]
+
+
+def ladder_groups(tier, fam):
+    """the counts of one work unit: 1..40 in four groups, every larger count on its own"""
+    big = [n for n in ladder_counts(tier)[40:] if tier != "quick" or n < 255 or fam in LADDER_QUICK_WIDE]
+    return [LADDER_SMALL[i:i + 10] for i in range(0, 40, 10)] + [[n] for n in big]
+
+
+def ladder_base_runs(sep, start, n):
+    if sep in "-:":
+        n, start = 2 * n + 1, "d"
+    runs = []
+    for j in range(n):
+        if (j % 2 == 0) == (start == "d"):
+            runs.append(LADDER_DIGITS[(j // 2) % len(LADDER_DIGITS)])
+        else:
+            runs.append(LADDER_MIXED[(j // 2) % len(LADDER_MIXED)] if sep == "mixed" else sep)
+    return runs
+
+
+def _bump(run):
+    return "9" + run if run[0].isdigit() else LADDER_BUMP[run[0]] + run[1:]
+
+
+def _changed(runs, i, fn):
+    out = list(runs)
+    out[i] = fn(out[i])
+    return out
+
+
+def ladder_variants(pos, sep, start, n, tr):
+    """-> [(variant name, version string)]: the base string with n runs and its neighbours - one run changed (the last,
+    the one before it, the middle one, the first), a leading zero in the last / first number, one more run after n
+    identical runs (one string a proper prefix of the other), an explicit zero revision / zero epoch.  Strings outside
+    the space (a body that ends with '-') and duplicates are dropped."""
+    runs = ladder_base_runs(sep, start, n)
+    m = len(runs)
+    digit_at = [i for i, r in enumerate(runs) if r[0].isdigit()]
+    cand = [("base", runs), ("last+", _changed(runs, m - 1, _bump))]
+    if digit_at:
+        cand.append(("last0", _changed(runs, digit_at[-1], lambda r: "0" + r)))
+    if m >= 2:
+        cand.append(("prev+", _changed(runs, m - 2, _bump)))
+    cand.append(("mid+", _changed(runs, m // 2, _bump)))
+    cand.append(("first+", _changed(runs, 0, _bump)))
+    if digit_at:
+        cand.append(("first0", _changed(runs, digit_at[0], lambda r: "00" + r)))
+    for x in LADDER_EXTENSIONS:
+        cand.append(("ext" + x, runs + [x]))
+    prefix = "1.0-" if pos == "revision" else ("1:" if sep == ":" else "")
+    out, seen = [], set()
+    for name, r in cand:
+        texts = [(name, prefix + "".join(r))]
+        if name == "base" and pos == "upstream":
+            texts.append(("rev0", prefix + "".join(r) + "-0"))
+            if sep != ":":
+                texts.append(("epoch0", "0:" + "".join(r)))
+        for nm, t in texts:
+            t = t.translate(tr)
+            if t not in seen and in_space(t):
+                seen.add(t)
+                out.append((nm, t))
+    return out
+
+
+def size_variants(kind, L, tr):
+    """versions with one run of exactly L characters (and neighbours of it), in upstream and in revision position"""
+    if kind == "digit":
+        runs = [("ones", "1" * L), ("last9", "1" * (L - 1) + "9"), ("first9", "9" + "1" * (L - 1)), ("zero-padded", "0" + "1" * (L - 1)),
+                ("shorter", "1" * (L - 1)), ("longer", "1" * (L + 1)), ("zeros", "0" * L)]
+        out = [("up/" + nm, "1." + r) for nm, r in runs] + [("rev/" + nm, "1.0-" + r) for nm, r in runs[:4]]
+        if L <= 4300:        # the reference model reads an epoch with int()
+            out.append(("epoch/zeros", "0" * L + ":1.0-" + "0" * L))
+    else:
+        runs = [("a", "a" * L), ("last-B", "a" * (L - 1) + "B"), ("last~", "a" * (L - 1) + "~"), ("shorter", "a" * (L - 1)),
+                ("tildes", "~" * L), ("tildes-shorter", "~" * (L - 1)), ("dots", "." * L)]
+        out = [("up/" + nm, "1" + r + "1") for nm, r in runs] + [("rev/" + nm, "1.0-1" + r) for nm, r in runs[:4]]
+    out = [(nm, t.translate(tr)) for nm, t in out]
+    assert all(in_space(t) for nm, t in out) and len({t for nm, t in out}) == len(out)
+    return out
+
+
+def ladder_strings(desc, tr):
+    if desc["ladder"] == "size":
+        return size_variants(desc["kind"], desc["n"], tr)
+    return ladder_variants(desc["pos"], desc["sep"], desc["start"], desc["n"], tr)
+
+
+def ladder_sig_prefix(desc):
+    if desc["ladder"] == "size":
+        return "size/%s-run/" % desc["kind"]
+    return "ladder/%s/%s/" % ("hyphens" if desc["sep"] == "-" else "colons" if desc["sep"] == ":" else "runs-" + desc["pos"],
+                              "sep-" + desc["sep"] + "-first-" + desc["start"])
+
+
+def ladder_pairs(m, mode):
+    """index pairs (i <= j) of the m variants - star: the base with itself and with every variant; chain: + every variant
+    with the next one; clique: every pair"""
+    if mode == "clique":
+        return [(i, j) for i in range(m) for j in range(i, m)]
+    return [(0, 0)] + [(0, j) for j in range(1, m)] + ([(j, j + 1) for j in range(1, m - 1)] if mode == "chain" else [])
+
+
+def ladder_mode(desc, tier):
+    if desc["ladder"] == "size":
+        return "chain" if tier != "quick" or desc["kind"] == "digit" else "star"
+    if tier == "quick":
+        return "clique" if desc["n"] <= 4 else "chain" if desc["n"] <= 10 else "star"
+    return "clique" if desc["n"] <= 40 else "chain"
+
+
+def ladder_light(a, b, A, B, c):
+    """the cheap form of run_pair: True when both directions answer as the model says"""
+    from debian.debian_support import version_compare
+    try:
+        return (version_compare(a, b) == c and version_compare(b, a) == -c and (A < B, A == B, A > B) == (c < 0, c == 0, c > 0) and
+                (B <= A, B != A) == (c >= 0, c != 0) and (c != 0 or hash(A) == hash(B)))
+    except Exception:
+        return False
+
+
+def run_ladder(part, desc, seed, mode="star"):
+    """all unordered pairs of the variants of one (family, n), both directions + reflexive, and the variants through the
+    sorting routes"""
+    tr = translation(seed)
+    names = ladder_strings(desc, tr)
+    pre = ladder_sig_prefix(desc)
+    strings = [t for nm, t in names]
+    objs = []
+    for nm, t in names:
+        try:
+            objs.append(construct(t))
+        except Exception as ex:
+            objs.append(ex)
+            part.violation(pre + "construct/raises/" + type(ex).__name__, dict(desc, seed=seed, a=nm, b=nm),
+                           "Version(<%s>) is constructed" % nm, "%s: %s" % (type(ex).__name__, str(ex)[:200]), rank=desc["n"])
+    use_keys = desc["ladder"] == "count"        # the key of a run of 65 537 digits is a big integer built digit by digit
+    keys = [dpkgver.key(t) for t in strings] if use_keys else None
+    part.states += len(strings)
+    for i, j in ladder_pairs(len(names), mode):
+        (na, a), (nb, b) = names[i], names[j]
+        A, B = objs[i], objs[j]
+        if isinstance(A, Exception) or isinstance(B, Exception):
+            continue
+        if j == i:
+            B = construct(a)
+        c, comp, why = dpkgver.explain(a, b)
+        if use_keys and c != (keys[i] > keys[j]) - (keys[i] < keys[j]):
+            raise AssertionError("dpkgver: compare and key order differ for %r %s %s" % (desc, na, nb))
+        if not ladder_light(a, b, A, B, c):
+            bad = run_pair(a, b, A, B, c, comp, why)
+            if not bad:
+                bad = [("order/history-dependent", "stable answers for (<%s>, <%s>)" % (na, nb),
+                        "the first comparison disagreed with the model, the repeated one did not")]
+            for sig, exp, obs in bad:
+                part.violation(pre + sig, dict(desc, seed=seed, a=na, b=nb), _short(exp), _short(obs), rank=desc["n"])
+        k = 1 if i == j else 2
+        part.transitions += k
+        part.traces += k
+        part.evaluations += k
+        part.outcomes["%s%s/%s/%s" % (pre.split("/")[0] + "/", WORD[c], comp, why)] += 1
+        if i != j and (c == 0 or "-vs-" in why):
+            part.nontrivial += 1
+    if use_keys and mode != "star" and not any(isinstance(o, Exception) for o in objs):
+        for sig, exp, obs in run_route_sort(strings[::-1]):
+            part.violation(pre + sig, dict(desc, seed=seed, sort=True), _short(exp), _short(obs), rank=desc["n"])
+        part.traces += 11
+        part.evaluations += 11
+    part.extra["%s cases (one per family and count / size)" % pre.split("/")[0]] += 1
+
+
+def _short(x):
+    x = x if isinstance(x, str) else repr(x)
+    return x if len(x) <= 400 else x[:200] + " ...[%d characters]... " % (len(x) - 400) + x[-200:]
+
+
+def unit_ladder(part, u, tier, seed):
+    if u["k"] == "size":
+        desc = {"ladder": "size", "kind": u["kind"], "n": u["n"]}
+        run_ladder(part, desc, seed, ladder_mode(desc, tier))
+        part.sample(dict(desc, seed=seed, a="up/ones" if u["kind"] == "digit" else "up/a", b="up/shorter"))
+        return part
+    pos, sep, start = LADDER_FAMILIES[u["fam"]]
+    for n in u["ns"]:
+        desc = {"ladder": "count", "pos": pos, "sep": sep, "start": start, "n": n}
+        run_ladder(part, desc, seed, ladder_mode(desc, tier))
+    part.max_depth = max(part.max_depth, max(u["ns"]))
+    part.sample(dict(desc, seed=seed, a="base", b="last0"))
+    return part
+
+
+def replay_ladder(case):
+    desc = {k: v for k, v in case.items() if k in ("ladder", "pos", "sep", "start", "n", "kind")}
+    tr = translation(case.get("seed", 0))
+    names = ladder_strings(desc, tr)
+    pre = ladder_sig_prefix(desc)
+    if case.get("sort"):
+        return [(pre + sig, _short(exp), _short(obs)) for sig, exp, obs in run_route_sort([t for nm, t in names][::-1])]
+    d = dict(names)
+    a, b = d[case["a"]], d[case["b"]]
+    try:
+        A = construct(a)
+        B = construct(b)
+    except Exception as ex:
+        return [(pre + "construct/raises/" + type(ex).__name__, "Version(<%s>) is constructed" % case["a"],
+                 "%s: %s" % (type(ex).__name__, str(ex)[:200]))]
+    c, comp, why = model_pair(a, b)
+    return [(pre + sig, _short(exp), _short(obs)) for sig, exp, obs in run_pair(a, b, A, B, c, comp, why)]
+
+
 def replay(case):
+    if "ladder" in case:
+        return replay_ladder(case)
     if case["k"] == "route-pair":
         return run_route_pair(case["a"], case["b"])
     if case["k"] == "route-sort":
@@ -876,6 +1166,12 @@ def replay(case):
 
 
 def repro_py(case):
+    if "ladder" in case:
+        if case.get("sort"):
+            return "# see replay: the variants of %r through the sorting routes\n" % (case,)
+        names = dict(ladder_strings({k: v for k, v in case.items() if k in ("ladder", "pos", "sep", "start", "n", "kind")},
+                                    translation(case.get("seed", 0))))
+        case = {"k": "pair", "a": names[case["a"]], "b": names[case["b"]]}
     if case["k"] == "triple":
         return ("from debian.debian_support import Version\n"
                 "a, b, c = (Version(s) for s in %r)\n"
